@@ -2,4 +2,4 @@
 From Verif Require Import GenState.
 Require Extraction ExtrOcamlBasic.
 Extraction Language OCaml.
-Extraction "model.ml" exec_table solid_table LimitEmptyLines_init resolve_in ends_solid write_builtin.
+Extraction "model.ml" exec_table LimitEmptyLines_init resolve_in write_builtin.
